@@ -1154,7 +1154,7 @@ class Executor:
             self.report.havoc.add(name)
         mutable = any(isinstance(a, Ref) and a.mut for a in args)
         key = None
-        if self.pure_havoc:
+        if self.pure_havoc and args:          # a call without arguments is an allocation or an environment read, not a function of the inputs
             try:
                 key = (name, dty, tuple(vkey(a) for a in args))
             except Exception:
